@@ -134,6 +134,11 @@ class RefSem:
             return a == b
         if k in ("exists", "forall"):
             doms = [self.objects_of(t[1]) for _, t in e[1]]
+            if any(not d for d in doms):
+                # the statement does not say what a quantifier over a type without objects means (the
+                # library expands it to the empty junction in one code path and drops an unused
+                # variable, keeping the body, in another)
+                raise Ambiguous("quantifier over a type without objects")
             vals = []
             for combo in product(*doms):
                 env2 = dict(env)
